@@ -724,6 +724,26 @@ func init() {
 		return array(uninterpretedHash("sha256", cellsOf(args[0]), 32))
 	}
 
+	// ---- sort.Slice / sort.SliceStable: insertion sort driving the REAL less closure (what pdqsort
+	// runs for n <= 12); symbolic comparisons fork
+	sortSlice := func(fr *frame, args []value) value {
+		x := args[0].(iface).v.([]value)
+		less := args[1]
+		for i := 1; i < len(x); i++ {
+			for j := i; j > 0; j-- {
+				r := call(fr.i, fr, 0, less, []value{j, j - 1})
+				if !decideVal(r) {
+					break
+				}
+				a, b := copyVal(x[j]), copyVal(x[j-1])
+				setCell(&x[j], b)
+				setCell(&x[j-1], a)
+			}
+		}
+		return nil
+	}
+	reg([]string{"sort.Slice", "sort.SliceStable"}, sortSlice)
+
 	// ---- sync (sequential models)
 	reg([]string{"(*sync.Mutex).Lock", "(*sync.Mutex).Unlock", "(*sync.RWMutex).Lock", "(*sync.RWMutex).Unlock",
 		"(*sync.RWMutex).RLock", "(*sync.RWMutex).RUnlock", "(*sync.WaitGroup).Add", "(*sync.WaitGroup).Done",
